@@ -201,6 +201,7 @@ func genTimes() {
 	for h := 0; h <= 25; h++ {
 		for m := 0; m <= 61; m++ {
 			timeCase(fmt.Sprintf("2006-01-02T15:04:05+%02d:%02d", h, m))
+			timeCase(fmt.Sprintf("2006-01-02T15:04:05.5-%02d:%02d", h, m))
 			timeCase(fmt.Sprintf("2006-01-02T%02d:%02d:%02dZ", h, m, m))
 		}
 	}
@@ -396,6 +397,12 @@ func genPacks() {
 	}
 }
 
+// created values of the enumeration: absent, valid, each leniency of time.Parse on its own
+// (one-digit hour; comma; offset hour 24 with a legal minute; offset minute 60 with a legal
+// hour, both signs), malformed.
+var enumCreated = []string{"", "2021-07-01T12:00:00Z", "2021-07-01T12:00:00.25-07:30", "2021-07-01T1:00:00Z", "2021-07-01T12:00:00,5Z",
+	"2021-07-01T12:00:00+24:00", "2021-07-01T12:00:00+22:60", "2021-07-01T12:00:00-00:60", "2021-07-01T12:00:00-24:59", "yesterday"}
+
 // enumPacks: the full product of the option classes the property quantifies over (small scope).
 // quick: memory target, no faults; thorough: every target kind and every fault position.
 func enumPacks() {
@@ -425,7 +432,7 @@ func enumPacks() {
 					for li := 0; li < 3; li++ {
 						for si := 0; si < 2; si++ {
 							for _, at := range []string{"", "application/vnd.example.thing", "not a type", ocispec.MediaTypeImageManifest} {
-								for _, created := range []string{"", "2021-07-01T12:00:00Z", "2021-07-01T1:00:00Z", "yesterday"} {
+								for _, created := range enumCreated {
 									for pi := 0; pi < 3; pi++ {
 										for _, fa := range fails {
 											sp := &spec{Fn: fn, Target: tg, Exists: ex, FailAt: fa, AT: at, Config: cfg, Backed: backing}
